@@ -17,6 +17,7 @@ def handle (line : String) : String :=
     | none => "bad-request"
   | _ => "bad-request"
 
-def run : IO Unit := loopPure handle
-
 end RtenVerif.Driver.C08
+
+/-- `model_C08`: reads request lines on stdin, prints the model's answer per line. -/
+def main : IO Unit := RtenVerif.Driver.loopPure RtenVerif.Driver.C08.handle
